@@ -173,6 +173,25 @@ def replay_case(case):
                     bad.append({**base, "why": "caller-drop-set-after-regenerating-from-the-attached-specs", "observed": sorted(int(x) for x in d2), "expected": sorted(joint)})
         except Exception as e:  # noqa
             bad.append({**base, "why": "regenerating-from-the-attached-specs-failed", "observed": type(e).__name__ + ": " + str(e)[:100]})
+        # (added) the same regeneration with call-time option overrides that repeat the recorded options: the structured specs are rebuilt
+        # from the overrides, the one drop set of the caller still serves all parts
+        if not bad:
+            try:
+                d3 = {d - 1 for d in case["drop0"]}
+                over = [{"output": output}, {"na_action": case["na"]}, {"output": output, "na_action": case["na"]}][(h // 2) % 3]
+                regen = res.model_spec.get_model_matrix(df, drop_rows=d3, context={}, **over)
+                rshape, rparts = shape_and_parts(regen)
+                if norm(rshape) != norm(shape):
+                    bad.append({**base, "why": "shape-of-the-result-regenerated-with-option-overrides", "overrides": over, "observed": norm(rshape), "expected": norm(shape)})
+                else:
+                    for i, mm in enumerate(rparts):
+                        n5, c5, _, _, a5 = matlib.alpha_matrix(mm, output)
+                        if n5 != case["parts"][i]["names"] or c5 != case["parts"][i]["cells"]:
+                            bad.append({**base, "why": f"part-{i}-regenerated-with-option-overrides-differs", "overrides": over, "observed": [n5, c5], "expected": [case["parts"][i]["names"], case["parts"][i]["cells"]]})
+                    if sorted(int(x) for x in d3) != sorted(joint):
+                        bad.append({**base, "why": "caller-drop-set-after-regenerating-with-option-overrides", "overrides": over, "observed": sorted(int(x) for x in d3), "expected": sorted(joint)})
+            except Exception as e:  # noqa
+                bad.append({**base, "why": "regenerating-with-option-overrides-failed", "observed": type(e).__name__ + ": " + str(e)[:100]})
     return bad
 
 
